@@ -12,9 +12,13 @@ engine.use_repo()
 
 
 def gen_cases_for(pid, tier, seed, per_strategy_quick=14, per_strategy_thorough=260, strategies=None,
-                  fault=False):
+                  fault=False, builder_quick=0, builder_thorough=0):
     strategies = strategies or scen.STRATEGIES
     n = per_strategy_quick if tier == "quick" else per_strategy_thorough
+    nb = builder_quick if tier == "quick" else builder_thorough
+    for i in range(nb):
+        for st in BUILDER_FAMILIES:
+            yield {"seed": seed, "i": i, "strategy": st, "pid": pid, "family": "builder"}
     for i in range(n):
         for st in strategies:
             c = {"seed": seed, "i": i, "strategy": st, "pid": pid}
@@ -23,9 +27,44 @@ def gen_cases_for(pid, tier, seed, per_strategy_quick=14, per_strategy_thorough=
             yield c
 
 
+BUILDER_FAMILIES = ["balanced_market", "distributed", "flex_window", "peak_load_window", "peak_shaving", "schedule"]
+
+
+def builder_full(strategy, seed, i):
+    """a scenario from the generator that the builder of this strategy's model developed for its tie (class-specific
+    options such as HORIZON / perfect_foresight / sub-strategies, tight and lattice families, directed variants);
+    deliberately malformed variants are left out"""
+    import importlib
+    m = importlib.import_module("s_" + strategy)
+    if strategy in ("balanced_market", "distributed", "peak_shaving"):
+        return m.gen_full(seed, i)
+    if strategy == "flex_window":
+        return m.gen_full({"seed": seed, "i": i})
+    if strategy == "peak_load_window":
+        vs = [v for v in sorted(set(m.VARIANTS)) if v != "malformed"]
+        full = m.make_case(seed, i // len(vs), vs[i % len(vs)])
+        full.get("meta", {}).pop("perturb", None)   # the builder's tie nudges SoCs onto EPS boundaries in flight: not here
+        return full
+    if strategy == "schedule":
+        collective = i % 2 == 1
+        vs = [v for v in m.VARIANTS if v in ("plain", "two_connectors", "no_target")]
+        variant = vs[(i // 2) % len(vs)]
+        rng = random.Random("S_SCHEDULE:%s:%s:%s" % (seed, i // 2, collective))
+        full = scen.gen_scenario(rng, strategy="schedule", feasible=rng.random() < 0.8, max_steps=40,
+                                 n_gc=2 if (variant == "two_connectors" and not collective) else None,
+                                 features={"collective": collective})
+        return m.directed(full, rng, variant)
+    raise ValueError(strategy)
+
+
 def build_case(case):
     if "scenario" in case:
         return case
+    if case.get("family") == "builder":
+        full = builder_full(case["strategy"], case["seed"], case["i"])
+        full["pid"] = case["pid"]
+        full.setdefault("meta", {})
+        return full
     rng = random.Random("%s:%s:%s:%s" % (case["pid"], case["seed"], case["i"], case["strategy"]))
     full = scen.gen_scenario(rng, strategy=case["strategy"], feasible=rng.random() < 0.85)
     full["pid"] = case["pid"]
